@@ -17,13 +17,14 @@ ENC = tuple(P + m for m in ("add_node", "delete_node", "add_link", "get_node_pro
      "fim.graph.networkx_property_graph_disjoint.NetworkXPropertyGraphDisjoint.graph_exists")
 OPS = ["add_node", "delete_node", "add_link", "update_node_property", "unset_node_property", "update_nodes_property",
        "update_node_properties", "update_link_property", "unset_link_property", "update_link_properties",
+       "update_node_properties_rev", "update_link_properties_rev",
        "get_node_properties", "get_link_properties", "get_all_nodes_by_class", "get_all_nodes_by_class_and_type",
        "list_all_node_ids", "node_exists", "check_node_unique", "graph_exists", "delete_graph"]
 NODE_IDS = ['n0', 'n1', 'n9']
-MUTATING = OPS[:10] + ["delete_graph"]
+MUTATING = OPS[:12] + ["delete_graph"]
 USES_K = {"update_node_property", "unset_node_property", "update_nodes_property", "update_node_properties",
-          "update_link_property", "unset_link_property", "update_link_properties"}
-UPDATES = {"update_node_property", "update_nodes_property", "update_node_properties"}
+          "update_link_property", "unset_link_property", "update_link_properties", "update_node_properties_rev", "update_link_properties_rev"}
+UPDATES = {"update_node_property", "update_nodes_property", "update_node_properties", "update_node_properties_rev"}
 
 
 def seed(i0, i1, c0, c1, n0, v0, r0, w0):
@@ -45,8 +46,9 @@ def call(target, op, x, y, l, k, v, is_ref):
     # index the pools lazily: an index into a list forks once per value, so only arguments the operation uses are looked up
     uses_x = op in ("add_node", "delete_node", "add_link", "update_node_property", "unset_node_property", "update_node_properties",
                     "update_link_property", "unset_link_property", "update_link_properties", "get_node_properties", "get_link_properties",
-                    "node_exists")
-    uses_y = op in ("add_link", "update_link_property", "unset_link_property", "update_link_properties", "get_link_properties")
+                    "node_exists", "update_node_properties_rev", "update_link_properties_rev")
+    uses_y = op in ("add_link", "update_link_property", "unset_link_property", "update_link_properties", "get_link_properties",
+                    "update_link_properties_rev")
     x = NODE_IDS[x] if uses_x else None
     y = NODE_IDS[y] if uses_y else None
     pn = PNAMES[k] if op in USES_K else None
@@ -65,6 +67,12 @@ def call(target, op, x, y, l, k, v, is_ref):
             r = target.update_nodes_property(pn, v) if is_ref else target.update_nodes_property(prop_name=pn, prop_val=v)
         elif op == "update_node_properties":
             r = target.update_node_properties(x, {pn: v, 'P': v}) if is_ref else target.update_node_properties(node_id=x, props={pn: v, 'P': v})
+        elif op == "update_node_properties_rev":
+            # the same bulk update with the symbolic (possibly refused) name AFTER an ordinary one
+            r = target.update_node_properties(x, {'P': v, pn: v}) if is_ref else target.update_node_properties(node_id=x, props={'P': v, pn: v})
+        elif op == "update_link_properties_rev":
+            r = target.update_link_properties(x, y, l, {'Q': v, pn: v}) if is_ref else \
+                target.update_link_properties(node_a=x, node_b=y, kind=l, props={'Q': v, pn: v})
         elif op == "update_link_property":
             r = target.update_link_property(x, y, l, pn, v) if is_ref else \
                 target.update_link_property(node_a=x, node_b=y, kind=l, prop_name=pn, prop_val=v)
@@ -146,7 +154,7 @@ def k_ok(op, k):
     return not (op in UPDATES and (k == PNAMES.index('NodeID') or k == PNAMES.index('GraphID')))
 
 
-def _mk(ops):
+def _mk(ops, prefix=()):
     nops = len(ops)
 
     def h_seq(c0: int, c1: int, n0: int, v0: int, r0: int, w0: int,
@@ -168,6 +176,9 @@ def _mk(ops):
         ib, b = make(True, nodes, edges, decoy)
         ref = RefGraph('g1', nodes, edges)
         dec_a, dec_b = content(ia, 'g2'), content(ib, 'g2')
+        for (pop, px) in prefix:
+            if not step((a, b), ref, (ia, ib), pop, px, 0, 'C', 0, 'v'):
+                return False
         args = [(x1, y1, tok(l1), k1, tok(v1)), (x2, y2, tok(l2), k2, tok(v2))]
         for j, op in enumerate(ops):
             if not step((a, b), ref, (ia, ib), op, *args[j]):
@@ -181,6 +192,11 @@ for _op in OPS:
     add("step1/" + _op, _mk([_op]), timeout=600, encodes=ENC,
         bounds="seed graph (2 nodes, 1 edge, decoy graph sharing a node id) with symbolic ids/classes/names/values; one %s with symbolic "
                "arguments (node id by symbolic index: an existing id or an unused one; property name from %s)" % (_op, PNAMES))
+
+# every operation on a graph that has been emptied node by node (the graph id is still known to the store, no node carries it)
+for _op in OPS:
+    add("emptied/" + _op, _mk([_op], prefix=(("delete_node", 0), ("delete_node", 1))), timeout=600, encodes=ENC,
+        bounds="as step1, after both nodes of the seed graph have been deleted one by one (concrete prefix, compared three ways as well)")
 
 _Q_FIRST = ["add_node", "delete_node"]
 _T_FIRST = ["add_link", "unset_node_property", "update_node_property", "update_nodes_property", "unset_link_property", "delete_graph"]
